@@ -218,6 +218,38 @@ func c16RelsCase(c *ctx, ts []jsonapi.Type, coherent bool) {
 				if !reflect.DeepEqual(got, got3) && !(len(got) == 0 && len(got3) == 0) {
 					key, detail = "rels-unstable-between-calls", descRels(got)+" vs "+descRels(got3)
 				}
+				// the list returned is the caller's: reordering it does not reorder the next one
+				for a, b := 0, len(got3)-1; a < b; a, b = a+1, b-1 {
+					got3[a], got3[b] = got3[b], got3[a]
+				}
+				if got5 := s.Rels(); !reflect.DeepEqual(got, got5) && !(len(got) == 0 && len(got5) == 0) && key == "" {
+					key, detail = "rels-unstable-between-calls", "after the caller reversed the list it had been given: "+descRels(got)+" vs "+descRels(got5)
+				}
+			}
+			// oracle 3b: a type replaced by another of the same name with as many, but other,
+			// relationships (Rels() consulted before): the list is the new schema's
+			if key == "" && len(ts) > 0 && coherent {
+				s6 := &jsonapi.Schema{}
+				for _, t := range copyTypes(ts) {
+					_ = s6.AddType(t)
+				}
+				_ = s6.Rels()
+				if len(s6.Types) != len(ts) {
+					s6 = &jsonapi.Schema{Types: copyTypes(ts)} // AddType refused one: take the schema as written
+					_ = s6.Rels()
+				}
+				old := copyTypes(ts)[0]
+				repl := jsonapi.Type{Name: old.Name, Attrs: old.Attrs, Rels: map[string]jsonapi.Rel{}}
+				for n, r := range old.Rels {
+					r2 := jsonapi.Rel{FromType: old.Name, FromName: n + "-replaced", ToOne: !r.ToOne, ToType: r.ToType}
+					repl.Rels[r2.FromName] = r2
+				}
+				s6.RemoveType(old.Name)
+				errAdd := s6.AddType(repl)
+				fresh := (&jsonapi.Schema{Types: copyTypes(s6.Types)}).Rels()
+				if got6 := s6.Rels(); errAdd == nil && !reflect.DeepEqual(got6, fresh) && !(len(got6) == 0 && len(fresh) == 0) {
+					key, detail = "rels-depend-on-edit-history", "after replacing type "+old.Name+": "+descRels(got6)+" vs, built afresh, "+descRels(fresh)
+				}
 			}
 			// oracle 4: the same schema built through the editing API, with Rels() consulted
 			// between the edits, lists the same relationships
